@@ -24,8 +24,9 @@ CONSTANTS Geoms,      \* set of subsystem-size tuples, e.g. {<<2,2>>, <<2,2,2>>}
           ExemptKnown,\* TRUE: the recorded finding (partial_trace_to_mpo conjugates the ket copy) is exempt
           Emit        \* TRUE: print the availability cases as JSON (run with one worker)
 
-VARIABLES psi, dims, st
-vars == <<psi, dims, st>>
+VARIABLES psi, dims, st,
+          ref        \* ref[s] = RDM(psi, dims, s), the reference reduced state of every ordered tuple (set in Init)
+vars == <<psi, dims, st, ref>>
 
 \* deterministic non-symmetric complex operators of any size; v = 1, 2 give different matrices
 GenOp(n, v) ==
@@ -54,32 +55,33 @@ Init ==
   /\ Den(psi) > 0
   /\ Size(dims) > 4 => \A i \in 1..Pin : psi[i] = AmpSeq[1]
   /\ st = [ph |-> "init"]
+  /\ ref = [s \in SiteTuples(dims) |-> RDM(psi, dims, s)]
 
 (* ---------------- requests through the route families ------------------- *)
-Value(fam, sites, kind, nrm) ==
+Value(fam, sites, kind) ==
   /\ st.ph = "init"
   /\ LET G == OpFor(SubDims(dims, sites), kind) IN
-     st' = [ph |-> "value", fam |-> fam, sites |-> sites, kind |-> kind, nrm |-> nrm,
+     st' = [ph |-> "value", fam |-> fam, sites |-> sites, kind |-> kind,
             num |-> FamilyNum(fam, psi, dims, sites, G, Mutant),
             den |-> FamilyDen(fam, psi, dims, sites, Mutant)]
-  /\ UNCHANGED <<psi, dims>>
+  /\ UNCHANGED <<psi, dims, ref>>
 
-ViaRhoTensordot == \E s \in SiteTuples(dims), k \in OpKinds, n \in BOOLEAN : Value("rho_tensordot", s, k, n)
-ViaTraceGRho    == \E s \in SiteTuples(dims), k \in OpKinds, n \in BOOLEAN : Value("trace_G_rho", s, k, n)
-ViaRhoG10       == \E s \in SiteTuples(dims), k \in OpKinds, n \in BOOLEAN : Value("rho_G_10", s, k, n)
-ViaGRho10       == \E s \in SiteTuples(dims), k \in OpKinds, n \in BOOLEAN : Value("G_rho_10", s, k, n)
-ViaGateOverlap  == \E s \in SiteTuples(dims), k \in OpKinds, n \in BOOLEAN : Value("gate_overlap", s, k, n)
+ViaRhoTensordot == \E s \in SiteTuples(dims), k \in OpKinds : Value("rho_tensordot", s, k)
+ViaTraceGRho    == \E s \in SiteTuples(dims), k \in OpKinds : Value("trace_G_rho", s, k)
+ViaRhoG10       == \E s \in SiteTuples(dims), k \in OpKinds : Value("rho_G_10", s, k)
+ViaGRho10       == \E s \in SiteTuples(dims), k \in OpKinds : Value("G_rho_10", s, k)
+ViaGateOverlap  == \E s \in SiteTuples(dims), k \in OpKinds : Value("gate_overlap", s, k)
 
 \* loop expansion with one spanning cluster: the base region's value is irrelevant junk
 ViaLoopExpansion ==
   /\ st.ph = "init"
-  /\ \E s \in SiteTuples(dims), k \in OpKinds, comb \in {"prod", "sum"}, junk \in {<<7, 3>>, <<0, 0>>} :
+  /\ \E s \in SiteTuples(dims), k \in OpKinds, comb \in {"prod", "sum"}, junk \in {<<7, 3>>} :
        LET G == OpFor(SubDims(dims, s), k)
            e == FamilyNum("rho_tensordot", psi, dims, s, G, Mutant)
-       IN  st' = [ph |-> "value", fam |-> "loop", sites |-> s, kind |-> k, nrm |-> FALSE,
+       IN  st' = [ph |-> "value", fam |-> "loop", sites |-> s, kind |-> k, comb |-> comb,
                   num |-> LoopCombineNum(e, junk, Len(s) = Len(dims), comb, Mutant),
                   den |-> FamilyDen("rho_tensordot", psi, dims, s, Mutant)]
-  /\ UNCHANGED <<psi, dims>>
+  /\ UNCHANGED <<psi, dims, ref>>
 
 (* ---------------- reduced density matrices ------------------------------ *)
 \* the routes that return rho itself; toMpo = the conjugate sits on the copy that keeps the ket indices
@@ -87,21 +89,21 @@ RdmRoute ==
   /\ st.ph = "init"
   /\ \E s \in SiteTuples(dims), toMpo \in BOOLEAN :
        st' = [ph |-> "rdm", sites |-> s, toMpo |-> toMpo, mat |-> RhoImpl(psi, dims, s, toMpo \/ Mutant = "conj_on_ket")]
-  /\ UNCHANGED <<psi, dims>>
+  /\ UNCHANGED <<psi, dims, ref>>
 
 \* the reduced state in operator form: trace joins upper with lower; partial transpose swaps them on sysa
 OperatorRoute ==
   /\ st.ph = "init"
   /\ \E s \in SiteTuples(dims) : \E sys \in SUBSET (1..Len(s)) :
-       LET rho == RhoImpl(psi, dims, s, FALSE)
-           sd  == SubDims(dims, s)
-           \* reindex upper<->lower on sysa = entry (a, b) reads the old entry with the sysa digits exchanged
-           pt  == Mat(rho.rows, [n \in 1..(rho.rows * rho.rows) |->
-                        LET a == (n - 1) \div rho.rows
-                            b == (n - 1) % rho.rows
-                        IN  MatEntry(rho, MixCfg(a, b, sd, sys) + 1, MixCfg(b, a, sd, sys) + 1)])
-       IN  st' = [ph |-> "op", sites |-> s, sys |-> sys, tr |-> TraceM(pt), mat |-> pt]
-  /\ UNCHANGED <<psi, dims>>
+       LET sd == SubDims(dims, s) IN
+       st' = Let1(RhoImpl(psi, dims, s, FALSE), LAMBDA rho :
+             \* reindex upper<->lower on sysa = entry (a, b) reads the old entry with the sysa digits exchanged
+             Let1(Mat(rho.rows, MkSeq(LAMBDA n : LET a == (n - 1) \div rho.rows
+                                                    b == (n - 1) % rho.rows
+                                                IN  MatEntry(rho, MixCfg(a, b, sd, sys) + 1, MixCfg(b, a, sd, sys) + 1),
+                                      1, rho.rows * rho.rows)),
+                  LAMBDA pt : [ph |-> "op", sites |-> s, sys |-> sys, tr |-> TraceM(pt), mat |-> pt]))
+  /\ UNCHANGED <<psi, dims, ref>>
 
 (* ---------------- the availability table (psi-independent) -------------- *)
 FirstState == psi = [i \in 1..Size(dims) |-> AmpSeq[1]] /\ Size(dims) > 4 /\ dims = CHOOSE d \in Geoms : Size(d) > 4 /\ \A e \in Geoms : Size(e) > 4 => Size(d) <= Size(e)
@@ -113,7 +115,7 @@ TableCase ==
        /\ st' = [ph |-> "case", cls |-> cls, route |-> route, n |-> n, asc |-> asc, bare |-> bare, nrm |-> nrm,
                  thin |-> thin, avail |-> Avail(route, cls, n, asc, bare, nrm, thin)]
        /\ (Emit => PrintT(<<"QVJSON", ToJson(st')>>))
-  /\ UNCHANGED <<psi, dims>>
+  /\ UNCHANGED <<psi, dims, ref>>
 
 Next == ViaRhoTensordot \/ ViaTraceGRho \/ ViaRhoG10 \/ ViaGRho10 \/ ViaGateOverlap \/ ViaLoopExpansion
         \/ RdmRoute \/ OperatorRoute \/ TableCase
@@ -125,7 +127,7 @@ Spec == Init /\ [][Next]_vars
 \* state of the same psi that this form IS the statement <psi|Embed(G)|psi> for every tuple and operator.
 RouteGivesDense ==
   st.ph = "value" =>
-    /\ st.num = ExpNum(RDM(psi, dims, st.sites), OpFor(SubDims(dims, st.sites), st.kind))
+    /\ st.num = ExpNum(ref[st.sites], OpFor(SubDims(dims, st.sites), st.kind))
     /\ st.den = Den(psi)
 \* the same against the statement itself (quadratic cost: used in the small configurations)
 RouteGivesDenseStmt ==
@@ -133,29 +135,30 @@ RouteGivesDenseStmt ==
 
 RdmGivesDense ==
   st.ph = "rdm" =>
-    \/ st.mat = RDM(psi, dims, st.sites)
-    \/ (ExemptKnown /\ st.toMpo /\ st.mat = ConjM(RDM(psi, dims, st.sites)))     \* named deviation KF-C13-1
+    \/ st.mat = ref[st.sites]
+    \/ (ExemptKnown /\ st.toMpo /\ st.mat = ConjM(ref[st.sites]))     \* named deviation KF-C13-1
 RdmShape ==
   st.ph = "rdm" => /\ IsHermitian(st.mat)
                    /\ TraceM(st.mat) = <<Den(psi), 0>>
 
 OperatorGivesDense ==
   st.ph = "op" =>
-    /\ st.mat = PTranspose(RDM(psi, dims, st.sites), SubDims(dims, st.sites), st.sys)
+    /\ st.mat = PTranspose(ref[st.sites], SubDims(dims, st.sites), st.sys)
     /\ st.tr = <<Den(psi), 0>>            \* a partial transpose keeps the trace
     /\ IsHermitian(st.mat)
 
-\* laws of the reference itself, on every enumerated state
+\* laws of the reference itself, on every enumerated state (ref[s] is RDM(psi, dims, s) by Init)
 Laws ==
   st.ph = "init" =>
     \A s \in SiteTuples(dims) :
-      /\ LawHermitian(psi, dims, s)
-      /\ LawTrace(psi, dims, s)
+      LET sd == SubDims(dims, s) IN
+      /\ IsHermitian(ref[s])
+      /\ TraceM(ref[s]) = <<Den(psi), 0>>
       /\ LawNested(psi, dims, s)
-      /\ \A k \in OpKinds : LawTraceForm(psi, dims, s, OpFor(SubDims(dims, s), k))
+      /\ \A k \in OpKinds : ExpNum(ref[s], OpFor(sd, k)) = ExpNumStmt(psi, dims, s, OpFor(sd, k))
       /\ \A p \in Perms(Len(s)) :
-           /\ LawOrder(psi, dims, s, p)
-           /\ LawOrderExp(psi, dims, s, p, OpFor(SubDims(dims, s), "full"))
+           /\ ref[ComposeSites(s, p)] = PermuteM(ref[s], sd, p)
+           /\ ExpNum(ref[ComposeSites(s, p)], PermuteM(OpFor(sd, "full"), sd, p)) = ExpNum(ref[s], OpFor(sd, "full"))
 
 \* the operators used really are non-symmetric, non-Hermitian and complex (otherwise conventions cancel)
 OpsDiscriminate ==
